@@ -2,6 +2,8 @@ package main
 
 // c08.go / C09 / C10 — structural parts of the transfer properties.
 
+import "golang.org/x/tools/go/ssa"
+
 func checkC08(R *Run) {
 	R.rule("resume-skip", "in every function that parses a client's resume offset (ForkInfoList.DataSize), that value reaches the amount of a Seek / Discard / CopyN(io.Discard) on the very reader whose bytes are then copied to the client, the skip dominating the copy")
 	R.rule("header-gate", "the flattened-file header is written only when the transfer has no options (not a preview); the data fork is written in both cases; order header → data fork → resource-fork header → resource fork")
@@ -43,6 +45,11 @@ func checkC10(R *Run) {
 	R.floor("publish-after-success", 2)
 	R.ruleIncompleteAppend(2, "hotline.UploadFolderHandler")
 	R.ruleResumeOffsetReply()
+	R.rule("path-taint", "(as C07) restricted to the folder transfer handlers: item paths read from the transfer connection are anchored before they are joined to the upload folder")
+	R.rulePathTaint("path-taint", func(fn *ssa.Function) bool {
+		n := fname(rootFn(fn))
+		return n == "hotline.UploadFolderHandler" || n == "hotline.DownloadFolderHandler"
+	}, 12)
 	R.ruleWalkFilterAgree()
 	R.floor("walk-filter-agree", 6)
 	R.floor("resume-skip", 1)
